@@ -5,6 +5,7 @@ import (
 
 	"github.com/reeflective/readline/inputrc"
 	"github.com/reeflective/readline/internal/history"
+	"github.com/reeflective/readline/internal/keymap"
 	"github.com/reeflective/readline/internal/strutil"
 )
 
@@ -687,6 +688,12 @@ func (rl *Shell) acceptLineWith(infer, hold bool) {
 }
 
 func (rl *Shell) insertAutosuggestPartial(emacs bool) {
+	// As the motion of an operator (yw, dw), a word movement
+	// only gives a range: it must not change the line itself.
+	if rl.Keymap.Local() == keymap.ViOpp {
+		return
+	}
+
 	cpos := rl.cursor.Pos()
 	if cpos < rl.line.Len()-1 {
 		return
